@@ -658,9 +658,9 @@ int main(int argc, char **argv) {
 
     if (prop == "C11" || prop == "C12") {
         unsigned variants = 2;
-        SpecSpace sd(true, thorough ? 4 : 3, (uint64_t)R.args.geti("random", thorough ? 30000 : 900), 4, 14);
-        SpecSpace su(false, thorough ? 5 : 4, (uint64_t)R.args.geti("random", thorough ? 30000 : 900), 4, 14);
-        uint64_t nfam = thorough ? 600 : 120;
+        SpecSpace sd(true, thorough ? 4 : 3, (uint64_t)R.args.geti("random", thorough ? 60000 : 3000), 4, 14);
+        SpecSpace su(false, thorough ? 5 : 4, (uint64_t)R.args.geti("random", thorough ? 60000 : 3000), 4, 14);
+        uint64_t nfam = thorough ? 1200 : 240;
         uint64_t total = (sd.count() + su.count()) * variants + nfam;
         if (R.args.mode == "count") {
             printf("%llu\n", (unsigned long long)total);
@@ -721,8 +721,8 @@ int main(int argc, char **argv) {
             if (idx % 499 == 7 && R.samples.size() < 5) R.sample("{\"graph\": " + q(curDesc) + "}");
         });
     } else if (prop == "C19") {
-        uint64_t nfam = thorough ? 6000 : 420;
-        uint64_t nrand = thorough ? 20000 : 600;
+        uint64_t nfam = thorough ? 12000 : 1200;
+        uint64_t nrand = thorough ? 60000 : 2400;
         uint64_t total = nfam + nrand;
         if (R.args.mode == "count") {
             printf("%llu\n", (unsigned long long)total);
